@@ -28,6 +28,7 @@
   `overhead pk` = 12, or 20 with abs-send-time enabled: the RTP header bytes in front of the payload.
 -/
 import Rtp.Proofs.PipelineCodecs
+import Rtp.Proofs.PipelineVP9
 import Rtp.Props.C10
 namespace Rtp.Props.Pipeline
 open Rtp Rtp.Model Rtp.Model.Pipeline Rtp.Pred.Pipeline Rtp.Proofs.Pipeline
@@ -147,15 +148,49 @@ theorem pipeline_vp9_flex_history (st : VP9Pay) (hflex : st.flexible = true) (hp
     (fun s fr hs hd => ⟨hd, by omega, hs.1, hs.2⟩)
     (fun s fr hs _ => vp9_next pk.budget s fr hs.1) fs st ⟨hflex, hpid⟩ hne
 
-/-- the full VP9 statement (both modes).  NOT proved here: in non-flexible mode the payloader reads
-    the VP9 frame header, so the frame domain is "starts with a well-formed header" (C12
-    `c12_rt` / `c12_header`) and the MTU bound is 11 + 1 for key frames; the composition for that mode
-    is missing (listed under "partial"). -/
-def pipeline_vp9_full : Prop :=
-  ∀ (st : VP9Pay) (_ : vp9Pid st < 32768) (pk : Packetizer) (_ : cfgOk pk = true)
-    (_ : overhead pk + 12 ≤ pk.mtu.toNat) (r : VP9Packet) (fs : List FrameIn)
-    (_ : ∀ f ∈ fs, f.frame ≠ [] ∧ (st.flexible = false → ∃ hd, vp9HeaderUnmarshal f.frame = .ok hd)),
-    histOk pk fs (run vp9Pay vp9Depack { pk := pk, st := st } r fs) = true
+/-! ### VP9, both modes (C06 ∘ C01 ∘ C08 ∘ C12 with `c12_header`) -/
+
+/-- **pipeline_vp9_history.**  A VP9Payloader in either mode, new (any injected initial picture id)
+    or used (`vp9Pid st < 2^15`: every reachable state), a VP9Packet receiver in ANY state, and any
+    list of frames each of which is in C12's domain for the budget the packetizer hands out
+    (`C12.proper`): non-empty; in flexible mode budget > 3; in NON-FLEXIBLE mode — where the
+    payloader parses the frame's uncompressed header — the frame starts with the bits of a
+    well-formed key or non-key header description (`fr.desc`) with coded sizes ≤ 65535, and budget
+    > 3 for a non-key frame, > 11 for a key frame (its first packet carries the scalability
+    structure).  `overhead ≤ MTU` makes `budget = MTU − overhead`. -/
+theorem pipeline_vp9_history (st : VP9Pay) (hpid : vp9Pid st < 32768) (pk : Packetizer) (hcfg : cfgOk pk = true)
+    (hov : overhead pk ≤ pk.mtu.toNat) (r : VP9Packet) (frames : List VP9Frame)
+    (hfr : ∀ fr ∈ frames, Rtp.Pred.C12.proper st.flexible (fr.call pk.budget) = true) :
+    histOk pk (frames.map VP9Frame.frameIn)
+      (run vp9Pay vp9Depack { pk := pk, st := st } r (frames.map VP9Frame.frameIn)) = true :=
+  run_ok vp9Pay vp9Depack (vp9Inv st.flexible pk.budget) { pk := pk, st := st } r _ hcfg hov
+    (vp9_fits' _ _) (vp9_dep' _ _) (vp9_payOk st hpid pk.budget frames hfr)
+
+/-- **pipeline_vp9.**  One frame. -/
+theorem pipeline_vp9 (st : VP9Pay) (hpid : vp9Pid st < 32768) (pk : Packetizer) (hcfg : cfgOk pk = true)
+    (hov : overhead pk ≤ pk.mtu.toNat) (r : VP9Packet) (fr : VP9Frame)
+    (hfr : Rtp.Pred.C12.proper st.flexible (fr.call pk.budget) = true) :
+    let o := (round vp9Pay vp9Depack { pk := pk, st := st } r fr.frameIn).1
+    trainOk pk (pk.seq.seq + 1) pk.ts o = true ∧ o.reasm = fr.frame :=
+  round_ok vp9Pay vp9Depack (vp9Inv st.flexible pk.budget) { pk := pk, st := st } r fr.frameIn hcfg hov
+    (vp9_fits' _ _) (vp9_dep' _ _) ⟨rfl, hpid, fr.desc, hfr⟩
+
+/-- the MTU bound in closed form: `overhead + 12 ≤ MTU` is enough in every mode for every frame
+    type (`overhead + 4` in flexible mode and for non-key frames) -/
+theorem vp9_proper_of_mtu (flex : Bool) (fr : VP9Frame) (B : UInt16)
+    (hB : 11 < B.toNat) (h : Rtp.Pred.C12.proper flex (fr.call 65535) = true) :
+    Rtp.Pred.C12.proper flex (fr.call B) = true := by
+  have hfi : Rtp.Pred.C12.frameInfo (fr.call B) = Rtp.Pred.C12.frameInfo (fr.call 65535) := rfl
+  simp only [Rtp.Pred.C12.proper, hfi, Bool.and_eq_true] at h ⊢
+  refine ⟨h.1, ?_⟩
+  cases flex with
+  | true => simp only [VP9Frame.call, if_true]; exact decide_eq_true (by omega)
+  | false =>
+    have h2 := h.2
+    simp only [Bool.false_eq_true, if_false] at h2 ⊢
+    split
+    · simp only [VP9Frame.call]; exact decide_eq_true (by split <;> omega)
+    · rename_i hn; rw [hn] at h2; cases h2
 
 /-! ### H264 (C06 ∘ C01 ∘ C08 ∘ C10) -/
 
@@ -275,6 +310,12 @@ theorem pipeline_vp9_flex_pred (st : VP9Pay) (pk : Packetizer) (r : VP9Packet) (
   simp only [wfVP9Flex, Bool.and_eq_true, decide_eq_true_eq] at h
   exact pipeline_vp9_flex_history st h.1.1.1.1 h.1.1.1.2 pk h.1.1.2 h.1.2 r fs (framesNonEmpty_iff fs h.2)
 
+theorem pipeline_vp9_pred (st : VP9Pay) (pk : Packetizer) (r : VP9Packet) (frames : List VP9Frame)
+    (h : wfVP9 st pk frames = true) :
+    histOk pk (frames.map VP9Frame.frameIn) (runVP9 st pk r (frames.map VP9Frame.frameIn)) = true := by
+  simp only [wfVP9, Bool.and_eq_true, decide_eq_true_eq] at h
+  exact pipeline_vp9_history st h.1.1.1 pk h.1.1.2 h.1.2 r frames (fun fr hfr => (List.all_eq_true.mp h.2) fr hfr)
+
 theorem pipeline_h264_pred (disable avc : Bool) (pk : Packetizer) (buf : Bytes) (frames : List H264Frame)
     (h : wfH264 pk frames = true) :
     histOkWhole pk (frames.map H264Frame.frameIn) (h264Expected disable avc frames)
@@ -326,6 +367,17 @@ example : histOk exCfg [exG711] (run g711Pay rawDepack { pk := exCfg, st := () }
 /-- VP9 flexible, a new payloader whose injected initial picture id is 0x7FFF (wraps to 0) -/
 example : histOk exCfg exVp8 (run vp9Pay vp9Depack { pk := exCfg, st := { flexible := true, init := 0x7FFF } } {} exVp8) = true :=
   pipeline_vp9_flex_history _ rfl (vp9_new_pid _ _) exCfg (by decide) (by decide) {} exVp8 (by decide)
+
+/-- VP9 NON-flexible: a 640×360 key frame (header description `exVp9Key`, 10 header bytes + 3) at
+    MTU 24 (budget 12 > 11): the first packet carries the scalability structure and one frame byte -/
+def exVp9Key : Spec.Vp9Bits.Hdr := .key 0 true false { space := 1, range := false } 640 360
+def exVp9Frames : List VP9Frame :=
+  [{ frame := exVp9Key.encode [] ++ [1, 2, 3], desc := some exVp9Key, samples := 3000 },
+   { frame := (Spec.Vp9Bits.Hdr.nonKey 0 true false).encode [] ++ [4, 5], desc := some (.nonKey 0 true false) }]
+example : wfVP9 { flexible := false, init := 7 } { exCfg with mtu := 24 } exVp9Frames = true := by decide +kernel
+example : histOk { exCfg with mtu := 24 } (exVp9Frames.map VP9Frame.frameIn)
+    (runVP9 { flexible := false, init := 7 } { exCfg with mtu := 24 } {} (exVp9Frames.map VP9Frame.frameIn)) = true :=
+  pipeline_vp9_pred _ _ {} _ (by decide +kernel)
 
 /-- H264 at MTU 20 (budget 8): SPS and PPS alone in the first frame (held back: no packet), then
     AUD + IDR of 9 bytes — the STAP-A (5+3+2 > 8) does not fit, so SPS, PPS leave on their own and
